@@ -55,6 +55,7 @@ fn main() {
         "glue06" => glue::glue06(&mut out, thorough),
         "glue11" => glue::glue11(&mut out, thorough),
         "glue17" => glue::glue17(&mut out, thorough),
+        "bookgen" => tables::bookgen(&mut out, thorough),
         "c15" => engine::c15(&mut out, thorough, args.get(5).map(|s| s.as_str()).unwrap_or("")),
         _ => {
             eprintln!("unknown stream {stream}");
